@@ -98,9 +98,15 @@ def execB (run : ProbeRunner) (w : World) : OpB → Res World (List Ent)
 
 /-- what a client can express, and — for the exchange batches — whose precondition holds on every
     selected entity.  (An exchange batch whose precondition fails on some selected entity panics
-    AFTER taking the world lock and after creating destination tables: the world stays locked —
-    see the finding in Ark/Props/C01Batch.lean.  Such a call is not a step of the machine.  The
-    one clean rejection, `add = rem = []`, is a step.) -/
+    in the lookup loop, after that loop has created the destination archetypes and tables of the
+    EARLIER source tables.  Since the repair of defect D27 the world lock is taken only after the
+    lookup loop, so the call no longer leaves the world locked: it is rejected with the lock state
+    as before and without changing any entity — `Ark.Props.C07Batch.exchangeBatch_panic_unlocked`,
+    and the finding in Ark/Props/C01Batch.lean.  What remains: the archetypes and tables created
+    before the panic are not undone, so "the world comes back unchanged" — what every rejected step
+    of this machine satisfies — still does not hold for such a call, and it is still not a step of
+    the machine; the machine has not been restructured.  The one clean rejection,
+    `add = rem = []`, is a step.) -/
 def guardB (s : St) : OpB → Bool
   | .base op => guard s op
   | .newb _ _ ids _ => ids.all fun c => decide (c < s.ss.zst.length)
